@@ -4,6 +4,7 @@ CONSTANTS
   EnterAlphabet <- MCEnter
   TrigKinds <- MCTrig
   Sites <- MCSites
+  Focus <- MCFocus
   Depth <- MCDepth
   MaxNest <- MCNest
   Pick <- MCPick
